@@ -120,6 +120,44 @@ def cow_check(repo, tier, seed):
                                            'solver_output': '%s: %s on `%s`, which may be an object of the compiled-type cache '
                                                             '(no self.copy() on this path)' % (f.ident, s['what'], s['target']),
                                            'line': s['line'], 'inputs': None})
+    # write-through setters: the specialisation functions above copy the *wrapper* (shallow); a setter of a type class
+    # that forwards the write to a child object (self.inner.set_default(v)) must therefore first replace the child by a
+    # copy of its own -- otherwise the write lands in an object shared with every other user of the compiled type
+    SPECIALISING = ('set_default', 'set_size_range', 'set_restricted_to_range')
+    for m in ck.prog.modules.values():
+        if m.relpath not in mods:
+            continue
+        for c in m.classes.values():
+            for f in c.methods.values():
+                if f.name not in SPECIALISING:
+                    continue
+                k = ok = 0
+                body = list(f.node.body)
+                for i, st in enumerate(body):
+                    for n in ast.walk(st):
+                        if isinstance(n, ast.Call) and isinstance(n.func, ast.Attribute) and n.func.attr.startswith('set_') \
+                                and isinstance(n.func.value, ast.Attribute) and isinstance(n.func.value.value, ast.Name) \
+                                and n.func.value.value.id == 'self':
+                            child = n.func.value.attr
+                            k += 1
+                            copied = any(isinstance(p_, ast.Assign) and len(p_.targets) == 1
+                                         and ast.unparse(p_.targets[0]) == 'self.' + child
+                                         and ast.unparse(p_.value) in ('copy(self.%s)' % child, 'copy.copy(self.%s)' % child,
+                                                                       'deepcopy(self.%s)' % child)
+                                         for p_ in body[:i])
+                            if copied:
+                                ok += 1
+                            else:
+                                violations.append({'obligation': '%s/copy-before-write-through(self.%s)@%d' % (f.ident, child, n.lineno),
+                                                   'function': f.ident, 'verdict': 'frame violation',
+                                                   'solver_output': '%s forwards the write to self.%s without first replacing it by a copy: '
+                                                                    'the child is shared with other users of the compiled type' % (f.ident, child),
+                                                   'line': n.lineno, 'inputs': None})
+                if k:
+                    obligations += k
+                    discharged += ok
+                    funcs.append({'function': f.ident, 'source_sha256': f.sha, 'paths': 1, 'obligations': k, 'discharged': ok,
+                                  'outcomes': {}, 'seconds': 0.0, 'inlined_callees': []})
     undecided = []
     if obligations < 5:
         undecided.append({'function': 'pyvc-own(cow)', 'kind': 'vacuous', 'reason': 'fewer than 5 write sites found'})
